@@ -68,12 +68,32 @@ pub enum Mnemonic {
     Tya,
 }
 
+/// Only tries the parser when what comes next is ASCII for as long as the word is
+fn verify_ascii<'a, F>(
+    word: &'static str,
+    mut parser: F,
+) -> impl FnMut(LocatedSpan<'a>) -> IResult<'a, LocatedSpan<'a>>
+where
+    F: FnMut(LocatedSpan<'a>) -> IResult<'a, LocatedSpan<'a>>,
+{
+    move |input: LocatedSpan<'a>| {
+        if super::ascii_ahead(&input, word) {
+            parser(input)
+        } else {
+            Err(nom::Err::Error(nom::error::Error::new(
+                input,
+                nom::error::ErrorKind::Tag,
+            )))
+        }
+    }
+}
+
 macro_rules! parse_mnemonic {
     ( $ input : expr , $ expected : expr ) => {
         // (an identifier that merely starts with a mnemonic, e.g. 'start' or 'inc16', is not an instruction)
         map(
             terminated(
-                tag_no_case($input),
+                verify_ascii($input, tag_no_case($input)),
                 not(alt((alphanumeric1, tag("_")))),
             ),
             |_| $expected,
